@@ -2,3 +2,4 @@
 # Regenerates /verif/baseline/obligations.json from /repo's working tree: everything at the quick budget, then the
 # functions whose slowest obligations need more time (they become proved-slow = claimed by the thorough tier only).
 cd /verif && bin/sctpvc baseline -limit 45 "$@" && bin/sctpvc baseline -limit 45 -t 90 -j 3 -f 'receivePayloadQueue.getGapAckBlocks$'
+# P5b of getGapAckBlocks sits at the edge of the quick budget (proved in 30-60 s depending on load): keep it proved-slow by hand if this run says proved
